@@ -3,7 +3,7 @@
 via VERIF_REPO, so /repo itself is never touched) and record which checks report it.
 Writes seeded/RESULTS.json."""
 import json, os, shutil, subprocess, sys, tempfile, concurrent.futures, re
-V = "/verif"
+V = os.environ.get("VERIF_HOME", "/verif")   # run from a snapshot copy so that edits to /verif do not disturb a long evaluation
 PROPS = ["C%02d" % i for i in range(1, 13)]
 
 
